@@ -1,4 +1,5 @@
 """C04 — JSON serialisation is lossless, strict and yields a fully usable container. DESIGN §3 C04."""
+import itertools
 import json
 import os
 import shutil
@@ -178,6 +179,53 @@ def check_nonfinite(spec, ev, how):
     return out
 
 
+def check_built(spec, e1, e2):
+    """Containers assembled by Stack.build / Fraction.build (NaN thresholds, no quantity of their own) are reachable
+    states too: their document must reload to the same document, and the reload must be usable - merged with the
+    original, with a second reload, and in place - exactly like the original merged with itself."""
+    import histogrammar as hg
+
+    args = {"spec": spec, "evs": core.show_evs([e1, e2])}
+    out = []
+    try:
+        mk = lambda: [core.mk(spec, [e1, e2]), core.mk(spec, [e2]), core.mk(spec, [])]  # noqa: E731
+        builders = [("Stack.build", lambda: hg.Stack.build(*mk())), ("Fraction.build", lambda: hg.Fraction.build(*mk()[:2]))]
+    except Exception:
+        return out
+    for nm, th in builders:
+        try:
+            h = th()
+            doc = h.toJson()
+            text = json.dumps(doc, allow_nan=False)
+            twice = (h + th()).toJson()
+        except Exception as e:
+            out.append(core.v_exc(PROP, "built", "%s result cannot be serialised / merged with its twin" % nm, e, args))
+            continue
+        try:
+            r1, r2 = hg.Factory.fromJson(json.loads(text)), hg.Factory.fromJsonString(text)
+            d = C.diff(r1.toJson(), doc, tol_keys=())
+            if d:
+                out.append(core.v_diff(PROP, "built", "reload of a %s result re-serialises differently" % nm, d, r1.toJson(), args))
+                continue
+            if not (r1 == r2 and r2 == r1) or r1 != r2:  # (immutable form: live quantities are functions, reloaded ones names)
+                out.append(FW.violation(PROP, "built", "two reloads of a %s result" % nm, "reloads-not-equal", args, {}))
+            g = th()
+            g += r2
+            for what, m in (("reload + original", lambda: r1 + h), ("original + reload", lambda: h + r1),
+                            ("reload + reload", lambda: r1 + r2), ("original += reload", lambda: g)):
+                d = C.diff(m().toJson(), twice, tol_keys=())
+                if d:
+                    out.append(core.v_diff(PROP, "built", "%s of a %s result differs from original + original" % (what, nm),
+                                           d, m().toJson(), args))
+                    break
+            d = C.diff(r1.toJson(), doc, tol_keys=()) or C.diff(h.toJson(), doc, tol_keys=())
+            if d:
+                out.append(core.v_diff(PROP, "built", "merging changed the %s result or its reload" % nm, d, r1.toJson(), args))
+        except Exception as e:
+            out.append(core.v_exc(PROP, "built", "reload of a %s result cannot be used like the original" % nm, e, args))
+    return out
+
+
 def _doc_of(spec):
     evs = A.events(spec, "core", cap=4, noop=False, weights=[1.0])
     hist = [evs[0], evs[-1]]
@@ -341,6 +389,11 @@ def _tree(task):
                 acc.add(check_nonfinite(spec, ev, how))
                 acc.n("nonfinite_states")
                 acc.n("roundtrips")
+    if not has_transform(spec):
+        for e1, e2 in itertools.product(menu["events"][:4], repeat=2):
+            acc.add(check_built(spec, e1, e2))
+            acc.n("built_containers", 2)
+            acc.n("roundtrips", 4)
     acc.n("states", st["states"])
     acc.n("transitions", st["transitions"])
     acc.sample({"tree": S.sid(spec), "history": X.show_history([("fill", 0, 0), ("copy", 0), ("fill", 1, 1)], menu)[:3],
@@ -429,6 +482,9 @@ def replay(driver, args):
         return check_doc_sequence(args["i"], args["tier"], args["upto"])[0]
     if driver == "nonfinite":
         return check_nonfinite(spec, core.unshow_evs([args["ev"]])[0], args["how"])
+    if driver == "built":
+        e1, e2 = core.unshow_evs(args["evs"])
+        return check_built(spec, e1, e2)
     menu = menu_from_args(args["menu"])
     hist = [tuple(op) for op in args["history"]]
     pool, refs = X.replay(spec, hist, menu)
